@@ -187,7 +187,14 @@ func newRun(c *lib.Ctx, o runOpts) *run {
 			}
 		}
 	}
-	// M4: freeze the shadow of the acknowledging operator's keys at the instant of its ack
+	x.installCutRecorder()
+	return x
+}
+
+// installCutRecorder (M4): freeze the shadow of the acknowledging operator's keys at the instant of its ack. Called
+// again when a run's cluster is replaced (a job started from a savepoint).
+func (x *run) installCutRecorder() {
+	o := x.o
 	x.cl.OnOpAck = func(a cluster.OpAck, w *cluster.Worker) {
 		rng := partitioning.KeyGroupRange{Start: a.Start, End: a.End}
 		snap := w.H.ShadowSnapshot(func(k []byte) bool {
@@ -212,7 +219,6 @@ func newRun(c *lib.Ctx, o runOpts) *run {
 		}
 		x.cl.Unlock()
 	}
-	return x
 }
 
 // exactlyOnceCheck: the program keeps seen/<id> and last/<split> entries inside the keyed state itself,
